@@ -270,6 +270,13 @@ def _aug(st, name):
     return None
 
 
+def _arms(e):
+    """Alternatives of a (nested) conditional expression; [e] for anything else."""
+    if isinstance(e, ast.IfExp):
+        return _arms(e.body) + _arms(e.orelse)
+    return [e]
+
+
 def _real_defs(ds):
     """Reaching definitions without `name = None` placeholders."""
     return {d for d in ds if not (d.kind == 'stmt' and isinstance(d.ast, ast.Assign) and _const(d.ast.value, None))}
@@ -2492,8 +2499,9 @@ def pipeline(repo, out):
                     problem = 'unsure'
                     break
                 D = sd[0].args[0].id
-                if any(d.kind == 'stmt' and isinstance(d.ast, ast.Assign) and isinstance(d.ast.value, ast.Call) and
-                       astx.callee_attr(d.ast.value) == 'apply_directional' for d in cx.rd.defs(sd[1], D)):
+                if any(d.kind == 'stmt' and isinstance(d.ast, ast.Assign) and
+                       any(isinstance(a_, ast.Call) and astx.callee_attr(a_) == 'apply_directional'
+                           for a_ in _arms(d.ast.value)) for d in cx.rd.defs(sd[1], D)):
                     problem = (sd[1].ast, f'the multiplier is computed from `{D}`, which already contains the '
                                f'direction vector: it must come from the undirected approximation data')
                     break
@@ -2506,11 +2514,11 @@ def pipeline(repo, out):
                         else:
                             ds = cx.rd.defs(rn, Y.id)
                             okd = bool(ds) and all(
-                                d.kind == 'stmt' and isinstance(d.ast, ast.Assign) and (
-                                    (isinstance(d.ast.value, ast.Name) and d.ast.value.id == D) or
-                                    (isinstance(d.ast.value, ast.Call) and
-                                     astx.callee_attr(d.ast.value) == 'apply_directional' and d.ast.value.args and
-                                     isinstance(d.ast.value.args[0], ast.Name) and d.ast.value.args[0].id == D))
+                                d.kind == 'stmt' and isinstance(d.ast, ast.Assign) and all(
+                                    (isinstance(a_, ast.Name) and a_.id == D) or
+                                    (isinstance(a_, ast.Call) and astx.callee_attr(a_) == 'apply_directional' and
+                                     a_.args and isinstance(a_.args[0], ast.Name) and a_.args[0].id == D)
+                                    for a_ in _arms(d.ast.value))
                                 and cx.rd.defs(d, D) == cx.rd.defs(sd[1], D) for d in ds)
                     if not okd:
                         problem = (m.ast, f'the multiplier comes from `{D}` but the point was run with '
@@ -3158,11 +3166,18 @@ def unscaled(repo, out):
                     continue    # called in the unscaled state by contract (root model, check_partials)
                 have = {'outputs': set(), 'residuals': set()}
                 odd = False
+                fcx = None
                 for ce in ctxs:
                     for i, nm in enumerate(('outputs', 'residuals')):
                         a = astx.arg(ce, i, nm)
                         if a is None:
                             continue
+                        if isinstance(a, ast.Name):
+                            # a local that names the vector list
+                            fcx = fcx or Ctx(f, sys_index=0)
+                            wn = fcx.g.nodes_of(astx.stmt_of(ce))
+                            if wn:
+                                a = fcx.resolve(a, wn[0])[0]
                         if not isinstance(a, (ast.List, ast.Tuple)):
                             odd = True
                             continue
@@ -3448,6 +3463,14 @@ selftest(
     # ---- stale-data (the FiniteDifference instance fires on today's tree; sibling instance)
     Mutant('cs-data-reads-value-and-is-cached', CS, "        step = meta['step']\n        step *= 1j",
            "        step = meta['step'] * abs(system._outputs._abs_get_val(wrt)).max()\n        step *= 1j", 'C12.stale-data'),
+    Mutant('unscaled-named-list-without-residual-vector', 'openmdao/core/implicitcomponent.py',
+           "            with self._unscaled_context(outputs=[self._outputs], residuals=[self._residuals]):\n                # Computing the approximation",
+           "            outs = [self._outputs]\n            resids = []\n            with self._unscaled_context(outputs=outs, residuals=resids):\n                # Computing the approximation", 'C12.unscaled'),
+    Mutant('pipeline-conditional-app-data-multiplier-from-it', AS,
+           '            if direction is not None:\n                app_data = self.apply_directional(data, direction)\n            else:\n                app_data = data\n\n            mult = self._get_multiplier(data)\n',
+           '            app_data = data if direction is None else self.apply_directional(data, direction)\n\n            mult = self._get_multiplier(app_data)\n', 'C12.pipeline'),
+    Mutant('buffer-if-else-live-view', AS, '        results_array = system._outputs.asarray(copy=True) if total_or_semi \\\n            else system._residuals.asarray(copy=True)\n',
+           '        if total_or_semi:\n            results_array = system._outputs.asarray(copy=True)\n        else:\n            results_array = system._residuals.asarray()\n', 'C12.result-buffer'),
     # ---- result-buffer
     Mutant('buffer-colored-live-view', AS, 'results_array = vec.asarray(copy=True)', 'results_array = vec.asarray()', 'C12.result-buffer'),
     Mutant('buffer-uncolored-live-view', AS, 'results_array = system._outputs.asarray(copy=True) if total_or_semi',
@@ -3699,6 +3722,14 @@ selftest(
          also=[(AS, '        else:\n            return  # this scheme has no colored wrt\n', '        if data is None:\n            return\n')]),
     Twin('repair-relative-step-not-cached', FD, '        if not self._wrt_meta:\n            return\n\n        self._starting_outs =',
          "        if not self._wrt_meta:\n            return\n\n        if any(m['step_calc'] != 'abs' for m in self._wrt_meta.values()):\n            self._reset()\n\n        self._starting_outs ="),
+    Twin('twin-unscaled-named-lists', 'openmdao/core/implicitcomponent.py',
+         "            with self._unscaled_context(outputs=[self._outputs], residuals=[self._residuals]):\n                # Computing the approximation",
+         "            outs = [self._outputs]\n            resids = [self._residuals]\n            with self._unscaled_context(outputs=outs, residuals=resids):\n                # Computing the approximation"),
+    Twin('twin-pipeline-app-data-conditional-expression', AS,
+         '            if direction is not None:\n                app_data = self.apply_directional(data, direction)\n            else:\n                app_data = data\n',
+         '            app_data = data if direction is None else self.apply_directional(data, direction)\n'),
+    Twin('twin-buffer-if-else', AS, '        results_array = system._outputs.asarray(copy=True) if total_or_semi \\\n            else system._residuals.asarray(copy=True)\n',
+         '        if total_or_semi:\n            results_array = system._outputs.asarray(copy=True)\n        else:\n            results_array = system._residuals.asarray(copy=True)\n'),
     Twin('twin-fd-zero-literal', FD, '        else:\n            results_array[:] = 0.\n\n        # Run', '        else:\n            results_array[:] = 0.0\n\n        # Run'),
     Twin('twin-cs-loop-variable', CS, 'for tup in self._compute_approx_col_iter(system, under_cs=True):\n                yield tup',
          'for item in self._compute_approx_col_iter(system, under_cs=True):\n                yield item'),
